@@ -75,6 +75,8 @@ C06_Diagnostic == OutcomeIsDiagnostic
 C06_StepBound == StepBound
 C07a_TolerantExtends == (Final /\ resA.o = "ok") => (resB.o = "ok" /\ resB.tree = resA.tree /\ resB.out = resA.out)
 C07c_OnlyClosers == (Final /\ resB.o = "ok" /\ SC8) => OnlyClosersInserted(src0, resB.out)
+(* C07(b): every source of this run is a well-formed document (no math / verbatim / list region) that lost ONE closer *)
+C07b_CloserLossRepaired == (Final /\ src0 \in Sources) => (resA.o # "ok" /\ resB.o = "ok")
 C08_Conserves == (Final /\ resA.o = "ok" /\ SC8) => Conserves(src0, resA.out)
 C16_FixedPoint == (Final /\ resA.o = "ok" /\ SC16) =>
                     (ResC.o = "ok" /\ ResC.out = resA.out /\ AbsSeq(ResC.tree) = AbsSeq(resA.tree))
